@@ -60,3 +60,80 @@ def century_rule(run: Run, model: PyModel, rid: str) -> None:
                     run.check(rid, "from_short_date_spec puts the constant century '20' in front of YYMMDD", ok, name, c.args[0],
                               f"the text handed to strptime is `{ast.unparse(c.args[0])}`: YYMMDD must be read as 20YYMMDD", file=FILE, node=c)
     run.floor("strptime sites in zorg.shared.dates", n, 2)
+
+
+# ---------------------------------------------------------------------------------------------------------------
+# Sibling agreement: the YYMMDD recogniser and the YYMMDD parser.
+#
+# A recogniser that decides by attempting the parse agrees with the parser by construction.  Any other recogniser
+# is evaluated abstractly on a finite partition of the six-digit strings into classes on which the calendar verdict
+# is uniform (year by residue mod 4 -- 2000..2099 contains no century exception --, month by value, day by the
+# ranges 01-28 / 29 / 30 / 31 / impossible).  Each class is a product of per-position character sets, so one
+# abstract run (character-set strings, finite int sets, set-splitting comparisons) covers all of its members; the
+# expected verdict comes from the frozen Gregorian table below.  No date is ever executed concretely.
+_DIM = (31, 28, 31, 30, 31, 30, 31, 31, 30, 31, 30, 31)
+
+
+def _calendar_classes():
+    years = [((t, u), (2 * int(t[0]) + int(u[0])) % 4) for t in ("02468", "13579") for u in ("048", "159", "26", "37")]
+    months = [(("0", str(i)), i) for i in range(1, 10)] + [(("1", "0"), 10), (("1", "1"), 11), (("1", "2"), 12),
+                                                            (("0", "0"), None), (("1", "3456789"), None), (("23456789", "0123456789"), None)]
+    days = [(("0", "0"), (0, 0)), (("0", "123456789"), (1, 9)), (("1", "0123456789"), (10, 19)), (("2", "012345678"), (20, 28)), (("2", "9"), (29, 29)),
+            (("3", "0"), (30, 30)), (("3", "1"), (31, 31)), (("3", "23456789"), (32, 39)), (("456789", "0123456789"), (40, 99))]
+    for (yc, r) in years:
+        for (mc, mv) in months:
+            for (dc, (lo, hi)) in days:
+                if mv is None or lo == 0 or hi > 31:
+                    want = False
+                else:
+                    dim = _DIM[mv - 1] + (1 if (mv == 2 and r == 0) else 0)
+                    want = hi <= dim
+                yield yc + mc + dc, want, f"YY in [{yc[0]}][{yc[1]}] (YY mod 4 = {r}), MM in [{mc[0]}][{mc[1]}], DD in [{dc[0]}][{dc[1]}]"
+
+
+def short_date_recogniser_agrees(run: Run, model: PyModel, rid: str) -> bool:
+    """is_short_date_spec accepts exactly the six-digit strings the short-date parser can parse."""
+    from .absint import Interp, Raised, State
+    from .absval import CharSet, SeqStr
+
+    q = f"{DATES}.is_short_date_spec"
+    fi = model.func(q)
+    # (a) by construction
+    for t in walk_no_nested(fi.node):
+        if isinstance(t, ast.Try):
+            body_calls = {ast.unparse(c.func).split(".")[-1] for s in t.body for c in ast.walk(s) if isinstance(c, ast.Call)}
+            catches = any(h.type is None or "ValueError" in ast.unparse(h.type) or "Exception" in ast.unparse(h.type) for h in t.handlers)
+            returns_false = any(isinstance(r, ast.Return) and isinstance(r.value, ast.Constant) and r.value.value is False for h in t.handlers for r in ast.walk(h))
+            if body_calls & {"from_short_date_spec", "strptime"} and catches and returns_false:
+                run.proved(rid, "is_short_date_spec decides by attempting the parse it guards (agrees with the parser by construction)")
+                return True
+    # (b) by abstract evaluation over the calendar partition
+    I = Interp(model)
+    n = 0
+    wrong = []
+    for parts, want, desc in _calendar_classes():
+        s = SeqStr(tuple(CharSet(frozenset(p)) if len(p) > 1 else p for p in parts))
+        try:
+            res = I.run_function(q, [s], st=State())
+        except Exception as e:
+            run.undecided(rid, "is_short_date_spec", f"cannot evaluate the recogniser abstractly: {type(e).__name__}: {e}")
+            return False
+        n += 1
+        vals = {("raises " + v.exc) if isinstance(v, Raised) else repr(v) for v, _ in res}
+        imprecise = [x for _, st in res for x in st.imprecise]
+        if imprecise or not vals <= {"True", "False"} or len(vals) != 1:
+            run.undecided(rid, "is_short_date_spec", f"{desc}: {imprecise[:2] or sorted(vals)}")
+            return False
+        if (vals == {"True"}) != want:
+            wrong.append((desc, want))
+    run.floor("calendar classes evaluated", n, 1080)
+    if wrong:
+        desc, want = wrong[0]
+        run.refuted(rid, "is_short_date_spec", f"calendar disagreement: {desc} -> {not want}",
+                    f"is_short_date_spec and the calendar disagree on {len(wrong)} of {n} classes of six-digit strings, e.g. {desc}: the recogniser says {not want}, a real calendar says {want}. "
+                    + ("Such a word reaches strptime and compiling a valid page dies with ValueError." if not want else
+                       "ZIDs / modify dates the allocator issues for that day are not recognised: the note gets a second ZID on the next run."),
+                    file=FILE, node=fi.node, detail=dict(classes=[d for d, _ in wrong[:12]]))
+        return False
+    run.proved(rid, f"is_short_date_spec agrees with the calendar on all {n} classes of six-digit strings (hand-written recogniser, evaluated abstractly)")
+    return True
